@@ -535,12 +535,19 @@ def run_case(base, idx, case, params, stats):
     os.close(sfd)
     os.environ["PATH"] = w.os_path
     reap_all()
+    deadline = time.time() + 10
+    while True:                       # a killed process may need a moment to go away on a loaded machine
+        d = descendants()
+        if not d:
+            break
+        if time.time() > deadline:
+            raise HarnessError("children before the case: %s" % (d,))
+        kill_descendants()
+        reap_all()
+        time.sleep(0.02)
     if subprocess._active:
         raise HarnessError("subprocess._active not empty before the case")
     fds0 = nfds()
-    run0, zom0 = census()
-    if run0 or zom0:
-        raise HarnessError("children before the case: %s running, %s zombies" % (run0, zom0))
     fired = []
 
     def watchdog():
@@ -571,6 +578,11 @@ def run_case(base, idx, case, params, stats):
     fds2 = nfds() - fds0
     killed = kill_descendants()
     reap_all()
+    deadline = time.time() + 10
+    while (descendants() or subprocess._active) and time.time() < deadline:     # killed, not yet gone
+        kill_descendants()
+        time.sleep(0.02)
+        reap_all()
     unrestored = max(0, nfds() - fds0) + len(subprocess._active)
     if unrestored:
         del subprocess._active[:]
